@@ -35,6 +35,7 @@ from typing import Any
 from harness import c17_gen as G
 from harness import c17_impl as I  # noqa: E741
 from harness import c17_sbml as S
+from harness import c17_streams as T
 from harness import common
 from harness.common import Run, cbool, clist, cstr
 
@@ -114,6 +115,21 @@ _SHAPES = {
     ),
 }
 
+_NUMBER_LITERAL = (
+    "if isinstance(value, sympy.Float) and math.isfinite((number := float(value))) and (sympy.Float(number) == value):\n"
+    "    return repr(number)\nreturn sympy_to_inline_py(value)"
+)
+_RXN_ASSIGN = (
+    "sym.reactions[key] = SymbolicReaction(fn=SymbolicFn(fn_name=key, expr=rxn.expr, args=free_symbols(rxn.expr)), "
+    "stoichiometry={k: _transform_stoichiometry(k, v) for k, v in rxn.stoichiometry.items()})"
+)
+# the seeded shape C17-5 (recognised so that the Coq model of that variant can be run against it)
+_USED_RATES = (
+    "used_rates = {name for expr in (*model.derived.values(), *model.initial_assignments.values(), "
+    "*(rxn.expr for rxn in model.reactions.values())) for name in free_symbols(expr)}"
+)
+_SKIP_TEST = "len(rxn.stoichiometry) == 0 and key not in used_rates"
+
 _IA_BRANCH = "sym.{0}[key].value = SymbolicFn(fn_name=key, expr=der, args=free_symbols(der))"
 
 
@@ -158,6 +174,11 @@ def extract_facts() -> dict[str, Any]:  # noqa: C901, PLR0912, PLR0915
         "module_name": "ModuleNameUnknown",
         "file_prefix": None,
         "register": "RegUnknown",
+        "rxn_filter": "RxnFilterUnknown",
+        "math_ref": "MathRefUnknown",
+        "lit_var": "LitUnknown",
+        "lit_par": "LitUnknown",
+        "lit_stoich": "LitUnknown",
         "shapes": {},
     }
     shapes: dict[str, bool] = facts["shapes"]
@@ -348,7 +369,83 @@ def extract_facts() -> dict[str, Any]:  # noqa: C901, PLR0912, PLR0915
         elif common_ok and new_ok and kinds == ["RegFresh", "RegFresh"]:
             facts["register"] = "RegFresh"
             shapes["generate"] = True
+    _extract_facts2(facts, imp, cg, st)
     return facts
+
+
+def _extract_facts2(facts: dict[str, Any], imp: ast.Module, cg: ast.Module, st: ast.Module) -> None:  # noqa: C901, PLR0912
+    """the three further facts of coq/sbmlimp/SbmlVariants.v (fail-closed: anything unrecognised stays *Unknown)"""
+    # -- which reactions _codegen hands on
+    f = _fn(imp, "_codegen")
+    if f is not None:
+        b = _body(f)
+        loops = [(i, s) for i, s in enumerate(b) if isinstance(s, ast.For) and ast.unparse(s.iter) == "model.reactions.items()"]
+        if len(loops) == 1 and ast.unparse(loops[0][1].target) == "(key, rxn)" and not loops[0][1].orelse:
+            i, loop = loops[0]
+            lb = loop.body
+            if len(lb) == 1 and ast.unparse(lb[0]) == _RXN_ASSIGN:
+                facts["rxn_filter"] = "RxnAll"
+            elif (
+                len(lb) == 2
+                and isinstance(lb[0], ast.If)
+                and ast.unparse(lb[0].test) == _SKIP_TEST
+                and not lb[0].orelse
+                and len(lb[0].body) == 1
+                and isinstance(lb[0].body[0], ast.Continue)
+                and ast.unparse(lb[1]) == _RXN_ASSIGN
+                and i > 0
+                and ast.unparse(b[i - 1]) == _USED_RATES
+            ):
+                facts["rxn_filter"] = "RxnSkipUnreadEmpty"
+    # -- how a generated def refers to math functions
+    f = _fn(st, "sympy_to_python_fn")
+    if f is not None:
+        calls = [n for n in ast.walk(f) if isinstance(n, ast.Call) and ast.unparse(n.func) == "pycode"]
+        if len(calls) == 1:
+            kw = {k.arg: ast.unparse(k.value) for k in calls[0].keywords}
+            if kw == {"fully_qualified_modules": "True", "full_prec": "False"}:
+                facts["math_ref"] = "MathQualified"
+            elif kw == {"fully_qualified_modules": "False", "full_prec": "False"}:
+                facts["math_ref"] = "MathBare"
+    # -- how plain numbers are written
+    g = _fn(cg, "_number_literal")
+    lit_ok = g is not None and _norm(_body(g)) == _NUMBER_LITERAL
+    for name, key in (("_codegen_variable", "lit_var"), ("_codegen_parameter", "lit_par")):
+        f = _fn(cg, name)
+        if f is None:
+            continue
+        assigns = [n for n in ast.walk(f) if isinstance(n, ast.Assign) and ast.unparse(n.targets[0]) == "value"]
+        uses = [n for n in ast.walk(f) if isinstance(n, ast.FormattedValue) and ast.unparse(n.value) == "value"]
+        if len(assigns) == 1 and uses:
+            rhs = ast.unparse(assigns[0].value)
+            if rhs == "_number_literal(init)" and lit_ok:
+                facts[key] = "LitRepr"
+            elif rhs == "sympy_to_inline_py(init)":
+                facts[key] = "LitSympy15"
+    f = _fn(cg, "generate_mxlpy_code_from_symbolic_repr")
+    if f is not None:
+        src = ast.unparse(f)
+        h = _fn(cg, "_codegen_stoichiometry")
+        if "_codegen_stoichiometry" not in src and h is None:
+            # the coefficient is written inside the reaction loop: the else branch of the isinstance chain
+            outs = [
+                ast.unparse(n.value)
+                for n in ast.walk(f)
+                if isinstance(n, ast.FormattedValue) and isinstance(n.value, ast.Call) and ast.unparse(n.value.args[0] if n.value.args else n.value) == "stoich"
+            ]
+            if outs == ["_number_literal(stoich)"] and lit_ok:
+                facts["lit_stoich"] = "LitRepr"
+            elif outs == ["sympy_to_inline_py(stoich)"]:
+                facts["lit_stoich"] = "LitSympy15"
+        elif h is not None and src.count("_codegen_stoichiometry(") == 1:
+            # factored out into a helper (seeded shape C17-6): its last statement writes the number
+            hb = _body(h)
+            if hb and isinstance(hb[-1], ast.Return):
+                last = ast.unparse(hb[-1].value)
+                if last == "_number_literal(stoich)" and lit_ok:
+                    facts["lit_stoich"] = "LitRepr"
+                elif last == "sympy_to_inline_py(stoich)":
+                    facts["lit_stoich"] = "LitSympy15"
 
 
 def gen() -> dict[str, Any]:
@@ -358,11 +455,13 @@ def gen() -> dict[str, Any]:
         "(* REGENERATED from src/mxlpy/sbml/_import.py, src/mxlpy/meta/codegen_mxlpy.py and\n"
         "   src/mxlpy/meta/sympy_tools.py by harness/c17.py; do not edit.  An unrecognised shape yields an\n"
         "   *Unknown constructor / empty string / false, which breaks C17_facts_pinned. *)\n"
-        "From Coq Require Import String List.\nFrom SbmlImp Require Import SbmlImport.\nImport ListNotations.\nOpen Scope string_scope.\n"
+        "From Coq Require Import String List.\nFrom SbmlImp Require Import SbmlImport SbmlVariants.\nImport ListNotations.\nOpen Scope string_scope.\n"
         "Definition gen_facts : facts :=\n"
         f"  mkFacts {cstr(f['init_prefix'] or '')} {cstr(f['stoich_infix'] or '')} {f['stoich_key']} "
         f"{clist(secs) if secs else '[]'} {f['ia_order']} {f['module_name']} {cstr(f['file_prefix'] or '')} {f['register']} "
         f"{cbool(all(f['shapes'].values()) and len(f['shapes']) == 10)}.\n"
+        "Definition gen_facts2 : facts2 :=\n"
+        f"  mkFacts2 {f['rxn_filter']} {f['math_ref']} {f['lit_var']} {f['lit_par']} {f['lit_stoich']}.\n"
     )
     common.write_if_changed(common.area_dir(AREA) / "GenSbmlFacts.v", text)
     return f
@@ -453,6 +552,75 @@ def judge(doc: dict, res: dict, states: list[dict[str, Fraction]]) -> list[str]:
         for s in dyn:
             if not close(rhs[py_name(s)], der[s]):
                 probs.append(f"d{s}/dt at state {_st(st)}: model {rhs[py_name(s)]!r}, document {fmt(der[s])}")
+        if len(probs) > 6:
+            break
+    probs += judge_reactions(doc, res, states, M, init)
+    return probs
+
+
+def judge_reactions(doc: dict, res: dict, states: list[dict[str, Fraction]], M: S.Meaning, init: dict) -> list[str]:  # noqa: C901, N803, PLR0912
+    """The reactions, their rates, the stoichiometric coefficients and the plain numbers of the Model against the
+    document (the part of the property that the species derivatives alone do not show):
+      * every reaction of the document is a reaction of the Model (and nothing else is);
+      * its rate at every state is the kinetic law's value;
+      * the coefficient of every moving species in every reaction is the document's net coefficient (divided by
+        the compartment size for a species given as a concentration); a constant coefficient of an amount species
+        that occurs once in the reaction involves no arithmetic: the stored number is EXACTLY the file's double;
+      * a parameter value / compartment size / initial amount without rule and initial assignment likewise."""
+    ex = res.get("extra")
+    if ex is None:
+        return [f"the reactions / rates / coefficients of the model could not be read: {res.get('extra_error')}"]
+    probs: list[str] = []
+    rxns = doc["reactions"]
+    want = sorted(py_name(r["id"]) for r in rxns)
+    if sorted(ex["reactions"]) != want:
+        missing = sorted(set(want) - set(ex["reactions"]))
+        return [f"reactions of the model are {sorted(ex['reactions'])}, the document declares {want}" + (f" (missing: {missing})" if missing else "")]
+    species = {s["id"]: s for s in doc["species"]}
+    dyn = [s for s in species if species[s]["kind"] != "boundary"]
+    # stored numbers: exact
+    rule_or_ia = {r["var"] for r in doc["rules"]} | {i["sym"] for i in doc["inits"]}
+    plain = [(p["id"], p["value"], "value of parameter") for p in doc["parameters"]]
+    plain += [(c["id"], c["size"], "size of compartment") for c in doc["compartments"]]
+    plain += [(s["id"], s["init"], "initial amount of") for s in doc["species"] if s["kind"] == "amount"]
+    for ident, v, what in plain:
+        if ident in rule_or_ia:
+            continue
+        got = ex["plain"].get(py_name(ident))
+        if got is not None and Fraction(*float(got).as_integer_ratio()) != Fraction(*float(Fraction(*v)).as_integer_ratio()):
+            probs.append(f"{what} {ident}: the model stores {got!r}, the document gives {float(Fraction(*v))!r}")
+    for r in rxns:
+        parts = [(sp, -Fraction(*st)) for sp, st in r["reactants"]] + [(sp, Fraction(*st)) for sp, st in r["products"]]
+        names = [sp for sp, _ in parts]
+        stored = ex["stored"].get(py_name(r["id"]), {})
+        for sp, c in parts:
+            if names.count(sp) == 1 and sp in species and species[sp]["kind"] == "amount":
+                got = stored.get(py_name(sp), "absent")
+                if got == "absent":
+                    probs.append(f"coefficient of {sp} in {r['id']}: absent from the model, the document gives {float(c)!r}")
+                elif got is not None and Fraction(*float(got).as_integer_ratio()) != Fraction(*float(c).as_integer_ratio()):
+                    probs.append(f"coefficient of {sp} in {r['id']}: the model stores {got!r}, the document gives {float(c)!r}")
+    for st, (fl, sto) in zip(states, ex["per"], strict=True):
+        try:
+            vals = M.values(st, init)
+        except (S.Undefined, ZeroDivisionError, OverflowError):
+            continue
+        for r in rxns:
+            n = py_name(r["id"])
+            if n not in fl:
+                probs.append(f"reaction {r['id']} (-> {n}) has no rate in get_fluxes")
+            elif not close(fl[n], vals[r["id"]]):
+                probs.append(f"rate of {r['id']} at state {_st(st)}: model {fl[n]!r}, document {fmt(vals[r['id']])}")
+            col = sto.get(n, {})
+            for sp in dyn:
+                net = sum((Fraction(*c) for x, c in r["products"] if x == sp), Fraction(0)) - sum((Fraction(*c) for x, c in r["reactants"] if x == sp), Fraction(0))
+                if species[sp]["kind"] == "conc":
+                    size = vals[species[sp]["comp"]]
+                    if size == 0:
+                        continue
+                    net = net / size
+                if not close(col.get(py_name(sp), 0.0), net):
+                    probs.append(f"coefficient of {sp} in {r['id']} at state {_st(st)}: model {col.get(py_name(sp), 0.0)!r}, document {fmt(net)}")
         if len(probs) > 6:
             break
     return probs
@@ -561,6 +729,10 @@ WITNESS_TMS = [
     ("w_init_coll", lambda: witness_init_collision(False)),
     ("w_init_coll_same", lambda: witness_init_collision(True)),
     ("w_nonvac", lambda: witness_nonvacuous()),
+    # coq/sbmlimp/SbmlWitness2.v (seeded shapes C17-4..6)
+    ("w_idle", lambda: dict(T.fixed_documents())["idle_reaction_unread"]),
+    ("w_precise", lambda: dict(T.fixed_documents())["coefficients_needing_17_digits"]),
+    ("w_mathids", lambda: dict(T.fixed_documents())["math_ids_as_arguments"]),
 ]
 
 
@@ -715,7 +887,7 @@ def corr_file(cases: list[str], stems: list[tuple[str, str]], pairs: list[str], 
     body = ";\n  ".join(cases)
     return (
         "From Coq Require Import String List ZArith QArith Bool.\nFrom MxlBase Require Import ListX.\n"
-        "From SbmlImp Require Import SbmlExpr SbmlImport SbmlRun SbmlSpec SbmlProofs SbmlWitness GenSbmlFacts.\nImport ListNotations.\nOpen Scope string_scope.\n"
+        "From SbmlImp Require Import SbmlExpr SbmlImport SbmlRun SbmlSpec SbmlProofs SbmlWitness SbmlVariants SbmlWitness2 GenSbmlFacts.\nImport ListNotations.\nOpen Scope string_scope.\n"
         "Definition cases : list case := [\n  " + body + "\n].\n"
         "Definition guards : list bool := " + clist(cbool(g) for g in guards) + ".\n"
         "Definition guard_mismatches := filter_idx (fun p => negb (Bool.eqb (nodup_strb (fn_keys gen_facts fsyms (c_tm (fst p)))) (snd p))) (combine cases guards).\n"
@@ -723,7 +895,7 @@ def corr_file(cases: list[str], stems: list[tuple[str, str]], pairs: list[str], 
         "Definition witness_mismatches := filter_idx (fun p => negb (tmodel_eqb (fst p) (snd p))) witnesses.\n"
         "Definition stems : list (string * string) := " + clist(f"({cstr(a)}, {cstr(b)})" for a, b in stems) + ".\n"
         "Definition pairs : list (option bool * option bool) := " + clist(pairs) + ".\n"
-        "Definition mismatches := filter_idx (fun c => negb (case_ok gen_facts c)) cases.\n"
+        "Definition mismatches := filter_idx (fun c => negb (case_ok2 gen_facts2 gen_facts c)) cases.\n"
         "Definition stem_mismatches := filter_idx (fun p => negb (String.eqb (valid_filename gen_facts (fst p)) (snd p))) stems.\n"
         "Definition pair_mismatches := filter_idx (fun p => match fst p, snd p with Some a, Some b => negb (Bool.eqb a b) | _, _ => true end) pairs.\n"
         "Eval vm_compute in mismatches.\nEval vm_compute in stem_mismatches.\nEval vm_compute in pair_mismatches.\n"
@@ -815,7 +987,12 @@ def check(run: Run) -> None:  # noqa: C901, PLR0912, PLR0915
         "init_/_stoich_ look-alikes) and a separate stream renames a rule-defined parameter so that its function name clashes with a generated "
         "init_<k> / <rxn>_stoich_<k> name; each read is judged at the document's initial state and 2 random states; a case is non-trivial if "
         "it has >= 1 reaction with a species of a compartment != 1 or a rule/function/initial assignment (all generated documents are); "
-        "distinct by document content"
+        "distinct by document content; three directed streams with own rng streams (harness/c17_streams.py): ids equal to names of Python's "
+        "math module (exp, log, sin, cos, sqrt as species / parameter inside an expression calling that function, as id of a rule or a "
+        "reaction next to another call), reactions that change no variable (no participants / modifiers only / boundary species only; a "
+        "third read by other math), numbers needing 16/17 significant digits (coefficients, values; written with their repr); the six "
+        "documents of the seeded shapes C17-4..6 first.  The oracle judges initial values, values, species derivatives, the reactions of "
+        "the Model, their rates, the coefficients per state, and bit-for-bit equality of numbers written as plain literals"
     )
     proofs_ok = run.check_proofs(AREA, PROPS)
     run.assumptions += [
@@ -828,6 +1005,8 @@ def check(run: Run) -> None:  # noqa: C901, PLR0912, PLR0915
         "fact extractor harness/c17.py::extract_facts (fail-closed ast matcher), sympy->Gallina expression translator, literal printers, coqc output parser",
         "python-libsbml as the writer of the generated documents; the oracle's reading of SBML semantics (harness/c17_sbml.py::Meaning)",
         "valid_filename is modelled on printable-ASCII stems (unicodedata.normalize is not modelled)",
+        "capture of a module-level name by a document id is not modelled (only the list of names a generated module needs: needed_names); "
+        "numbers inside generated def bodies are printed by sympy with 15 significant digits (validated within the oracle's 1e-9 tolerance only)",
     ]
 
     rng = common.rng_for(run.seed, "c17")
@@ -855,7 +1034,7 @@ def _check_body(run: Run, rng, sess: Session, thorough: bool, proofs_ok: bool) -
     def bump(d: dict, k: str) -> None:
         d[k] = d.get(k, 0) + 1
 
-    def handle(doc: dict, stem: str, states: list, *, expect_finding: bool) -> None:
+    def handle(doc: dict, stem: str, states: list, *, expect_finding: bool, pool: bool = True) -> None:
         nonlocal n_viol
         r = run_doc(sess, doc, stem, states)
         res = r["res"]
@@ -900,7 +1079,7 @@ def _check_body(run: Run, rng, sess: Session, thorough: bool, proofs_ok: bool) -
                     {"kind": "doc", "doc": _doc_public(doc), "stem": stem, "states": [{k: [v.numerator, v.denominator] for k, v in st.items()} for st in states],
                      "problems": probs[:6], "generated_defs": res["keys"]},
                 )
-        elif not expect_finding:
+        elif not expect_finding and pool:
             good_docs.append((doc, states))
         if len(run.samples) < 3 and not probs and not expect_finding:
             run.sample({"document": _doc_public(doc), "stem": stem, "read_ok": True, "rhs_at_initial_state": res["obs"][2][0][1] if res["obs"][0] == "Val" else None})
@@ -914,6 +1093,15 @@ def _check_body(run: Run, rng, sess: Session, thorough: bool, proofs_ok: bool) -
             states = [{k: Fraction(v[0], v[1]) for k, v in st.items()} for st in ent["states"]]
             bump(dist, "corpus")
             handle(ent["doc"], "corpus_" + ent["name"][:20].replace("-", "_"), states, expect_finding=bool(ent.get("finding_region")))
+
+    # ---- the documents of the seeded shapes C17-4..6 (fixed; see c17_streams.fixed_documents) -----------
+    for name, doc in T.fixed_documents():
+        states = pick_states(common.rng_for(0, "c17-fixed-" + name), doc, S.Meaning(doc), 2)
+        if states is None:
+            run.note(f"fixed document {name}: math undefined at the initial state")
+            continue
+        bump(dist, "fixed-seeded-shapes")
+        handle(doc, "fixed_" + name, states, expect_finding=False, pool=False)
 
     # ---- the main stream ----------------------------------------------------------------
     for i in range(n_docs):
@@ -942,6 +1130,37 @@ def _check_body(run: Run, rng, sess: Session, thorough: bool, proofs_ok: bool) -
         made += 1
         bump(dist, "collision-variant")
         handle(doc, f"coll{made}", states, expect_finding=True)
+
+    # ---- directed streams (own rng streams: the streams above are what they were) -----------------------
+    r_math = common.rng_for(run.seed, "c17-mathid")
+    for i in range(240 if thorough else 36):
+        doc = T.mathid_doc(r_math, T.MATHID_SHAPES[i % len(T.MATHID_SHAPES)])
+        states = pick_states(r_math, doc, S.Meaning(doc), 2)
+        if states is None:
+            bump(skipped, "document's math undefined at its initial state (discarded)")
+            continue
+        bump(dist, doc["flavour"])
+        handle(doc, f"mid{i}", states, expect_finding=False, pool=False)
+    r_idle = common.rng_for(run.seed, "c17-idle")
+    for i in range(160 if thorough else 24):
+        doc = T.idle_doc(r_idle, G.gen_doc(r_idle, ["poly", "pw"][i % 2], i % 4 == 3))
+        states = pick_states(r_idle, doc, S.Meaning(doc), 2) if doc is not None else None
+        if states is None:
+            bump(skipped, "idle-reaction variant not usable (no constant parameter / math undefined)")
+            continue
+        bump(dist, "idle-reactions")
+        for kd in doc["flavour"][5:].split(","):
+            bump(dist, "idle:" + kd)
+        handle(doc, f"idle{i}", states, expect_finding=False, pool=False)
+    r_prec = common.rng_for(run.seed, "c17-precise")
+    for i in range(160 if thorough else 24):
+        doc = T.precise_doc(r_prec, G.gen_doc(r_prec, ["poly", "poly", "pw"][i % 3], False))
+        states = pick_states(r_prec, doc, S.Meaning(doc), 2)
+        if states is None:
+            bump(skipped, "document's math undefined at its initial state (discarded)")
+            continue
+        bump(dist, doc["flavour"])
+        handle(doc, f"prec{i}", states, expect_finding=False, pool=False)
 
     # ---- valid_filename -----------------------------------------------------------------
     from mxlpy.sbml._import import valid_filename
@@ -1036,7 +1255,7 @@ def _check_body(run: Run, rng, sess: Session, thorough: bool, proofs_ok: bool) -
                 )
         for j in lists[4]:
             mism += 1
-            run.broken_correspondence.append(f"fixed witness {WITNESS_TMS[j][0]} of coq/sbmlimp/SbmlWitness.v is no longer what pysbml returns for its document")
+            run.broken_correspondence.append(f"fixed witness {WITNESS_TMS[j][0]} of coq/sbmlimp/SbmlWitness.v / SbmlWitness2.v is no longer what pysbml returns for its document")
     run.coverage["traces_validated_against_impl"] = 2 * len(coq_cases) + len(stem_pairs) + len(pair_lits) + len(wit_lits) - mism
     run.coverage["correspondence_mismatches"] = mism
     run.coverage["findings_region_hits"] = known_hits
